@@ -62,7 +62,9 @@ def main():
             "C17": ("paths", "PathSrc", "PathSrcP", "toasty/pyramid.py (class PyramidIO, tile naming)", "naming model (Model/Paths.v)"),
             "C07": ("script", "ScriptSrc", "ScriptSrcP", "toasty/fits_tiler.py (FitsTiler._tile_toast)", "script of calls (Model/TileToastScript.v)"),
             "C02": ("cli_cascade", "CliCascadeSrc", "CliCascadeP", "toasty/cli.py (cascade_impl)", "model of the command (Model/CliScript.v)"),
-            "C03": ("cli_transform", "CliTransformSrc", "CliTransformP", "toasty/cli.py (transform_impl)", "model of the command (Model/CliScript.v)")}
+            "C03": ("cli_transform", "CliTransformSrc", "CliTransformP", "toasty/cli.py (transform_impl)", "model of the command (Model/CliScript.v)"),
+            "C11": ("cli_allsky", "CliAllskySrc", "CliAllskyP", "toasty/cli.py (tile_allsky_impl)", "model of the command (Model/CliScript.v)"),
+            "C20": ("cli_multi_tan", "CliMultiTanSrc", "CliMultiTanP", "toasty/cli.py (tile_multi_tan_impl)", "model of the command (Model/CliScript.v)")}
     if pid in TIES:
         import hashlib
         import py2coq
@@ -70,12 +72,14 @@ def main():
         try:
             text = {"pyramid": py2coq.translate_pyramid, "study": py2coq.translate_study,
                     "paths": py2coq.translate_paths, "script": py2coq.translate_script,
-                    "cli_cascade": py2coq.translate_cli_cascade, "cli_transform": py2coq.translate_cli_transform}[which](common.REPO)
+                    "cli_cascade": py2coq.translate_cli_cascade, "cli_transform": py2coq.translate_cli_transform,
+                    "cli_allsky": py2coq.translate_cli_allsky, "cli_multi_tan": py2coq.translate_cli_multi_tan}[which](common.REPO)
             funcs = {"pyramid": py2coq.PYRAMID_FUNCS,
                      "study": ["next_highest_power_of_2"] + ["StudyTiling." + m for m in py2coq.STUDY_METHODS],
                      "paths": ["PyramidIO." + m for m in py2coq.PATH_METHODS],
                      "script": ["FitsTiler._tile_toast"], "cli_cascade": ["cli.cascade_impl"],
-                     "cli_transform": ["cli.transform_impl"]}[which]
+                     "cli_transform": ["cli.transform_impl"], "cli_allsky": ["cli.tile_allsky_impl"],
+                     "cli_multi_tan": ["cli.tile_multi_tan_impl"]}[which]
             translated = dict(source=srcname, functions=funcs, sha256=hashlib.sha256(text.encode()).hexdigest()[:16])
             tree_file = common.COQ / "theories" / "Generated" / (gen + ".v")
             if not tree_file.exists() or tree_file.read_text() != text:
